@@ -318,3 +318,119 @@ Proof.
   - destruct Hnth as (x0 & Hx0 & Hr). rewrite Hk in Hx0. injection Hx0 as <-. contradiction.
   - rewrite Hk in Hnth. discriminate.
 Qed.
+
+Lemma NoDup_snoc {A} (l : list A) x : NoDup l -> ~ In x l -> NoDup (l ++ [x]).
+Proof.
+  induction l as [|y r IH]; intros Hnd Hx; cbn [app]; [apply NoDup_cons; [intros []|constructor]|].
+  inversion Hnd; subst. constructor.
+  - intros Hin. apply in_app_or in Hin as [Hin|[E|[]]]; [contradiction|subst; apply Hx; now left].
+  - apply IH; [assumption|]. intros Hin. apply Hx. now right.
+Qed.
+Lemma dead_fresh st a dt (Hdead : forall j t, nth_error dt j = Some t ->
+       exists rj D, nth_error (trees st) t = Some (mk_slot rj D) /\ nth_error (a_dead a) j = Some D /\ is_node D = true) :
+  ~ In (length (trees st)) dt.
+Proof.
+  intros Hin. apply In_nth_error in Hin as (j & Hj). destruct (Hdead j _ Hj) as (rj & D & HD & _).
+  apply nth_error_Some_lt in HD. lia.
+Qed.
+
+(* ------------------------------------------------------------------ obtaining handles *)
+Lemma hpara_refines st a dst i : R st a ->
+  exists x st', run_hop (HPara dst i) st = Ok (x, st') /\ R st' (hstep (HPara dst i) a).
+Proof.
+  intros (tid & ri & dt & rs & mregs & Hregs & Hdoc & Hnodes & HT & Ldt & Hnd & Hdead & HF).
+  destruct st as [ts regs0]. cbn [regs trees] in *. subst regs0.
+  pose proof (nth_paragraph_spec ts (Some (mk_hnd tid []) :: mregs) tid ri ROOT rs i eq_refl HT) as Rn.
+  eexists. eexists. split.
+  - cbn [run_hop]. unfold mbind at 1. rewrite Rn. unfold mbind. cbn [set_reg regs trees]. reflexivity.
+  - exists tid, ri, dt, rs, (set_reg_l dst (match para_slot i rs 0 with Some s => Some (mk_hnd tid ([] ++ [s])) | None => None end) mregs).
+    cbn [regs trees hstep a_doc a_dead a_regs preg set_reg_l]. repeat split; auto.
+    apply Forall2_set_reg; [exact HF|]. rewrite Hdoc, npara_pidx.
+    destruct (i <? pidx rs) eqn:Ei.
+    + apply Nat.ltb_lt in Ei. destruct (para_slot_some rs i 0 Ei) as (s & Es). rewrite Es. cbn [reg_rel app].
+      exists s. split; [reflexivity|now apply slot_live_at].
+    + apply Nat.ltb_ge in Ei. rewrite (para_slot_none rs i 0 Ei). exact I.
+Qed.
+
+Lemma hnewpara_refines st a dst l : R st a ->
+  exists x st', run_hop (HNewPara dst l) st = Ok (x, st') /\ R st' (hstep (HNewPara dst l) a).
+Proof.
+  intros (tid & ri & dt & rs & mregs & Hregs & Hdoc & Hnodes & HT & Ldt & Hnd & Hdead & HF).
+  destruct st as [ts regs0]. cbn [regs trees] in *. subst regs0.
+  pose proof (nth_error_Some_lt _ _ _ HT) as Hlt.
+  eexists. eexists. split; [cbn [run_hop]; reflexivity|].
+  exists tid, ri, (dt ++ [length ts]), rs, (set_reg_l dst (Some (mk_hnd (length ts) [])) mregs).
+  cbn [regs trees hstep a_doc a_dead a_regs preg set_reg_l]. split; [reflexivity|]. split; [exact Hdoc|]. split; [exact Hnodes|].
+  split; [now apply nth_error_app_l|]. split; [rewrite !app_length; cbn; lia|]. split.
+  { inversion Hnd as [|? ? Hni Hnd']; subst. constructor.
+    - intros Hin. apply in_app_or in Hin as [Hin|[E|[]]]; [contradiction|lia].
+    - apply NoDup_snoc; [exact Hnd'|]. exact (dead_fresh (mk_state ts (Some (mk_hnd tid []) :: mregs)) a dt Hdead). }
+  split.
+  { intros j t Hj. destruct (Nat.lt_ge_cases j (length dt)) as [Hl|Hl].
+    - rewrite nth_error_app1 in Hj by exact Hl. destruct (Hdead j t Hj) as (rj & D & HD & Hd & Hn).
+      exists rj, D. split; [now apply nth_error_app_l|]. split; [now apply nth_error_app_l|exact Hn].
+    - rewrite nth_error_app2 in Hj by exact Hl. destruct (j - length dt) as [|q] eqn:Eq; [|destruct q; discriminate].
+      injection Hj as <-. assert (j = length dt) by lia. subst j. exists 0, (paragraph_of_pairs l).
+      split; [apply nth_error_app_at|]. split; [rewrite Ldt; apply nth_error_app_at|reflexivity]. }
+  apply Forall2_set_reg.
+  - eapply Forall2_impl; [exact HF|]. intros m0 h0. apply reg_rel_dt_mono.
+  - cbn [reg_rel]. exists (length ts). split; [rewrite <- Ldt; apply nth_error_app_at|reflexivity].
+Qed.
+
+(* ------------------------------------------------------------------ remove_paragraph *)
+Lemma forallb_after_removed (p : tree -> bool) post : forallb p post = true -> forallb p (after_removed post) = true.
+Proof. unfold after_removed. destruct (blank_follows post); [|auto]. destruct post; cbn; [auto|]. intros H. now apply andb_prop in H as [_ H]. Qed.
+
+Lemma hremovep_refines st a i : R st a ->
+  exists x st', run_hop (HRemoveP i) st = Ok (x, st') /\ R st' (hstep (HRemoveP i) a).
+Proof.
+  intros (tid & ri & dt & rs & mregs & Hregs & Hdoc & Hnodes & HT & Ldt & Hnd & Hdead & HF).
+  destruct st as [ts regs0]. cbn [regs trees] in *. subst regs0.
+  pose proof (nth_error_Some_lt _ _ _ HT) as Hlt.
+  cbn [hstep]. rewrite Hdoc.
+  destruct (Nat.lt_ge_cases i (pidx rs)) as [Hi|Hi].
+  - destruct (para_slot_some rs i 0 Hi) as (s & Es). destruct (para_slot_split _ _ _ _ Es) as (pre & P & post & -> & _ & HP & <-).
+    rewrite (paragraphs_nth pre P post HP).
+    destruct (remove_paragraph_spec ts (Some (mk_hnd tid []) :: mregs) tid ri pre P post eq_refl HT HP)
+      as (ts' & F & Rn & L' & T' & N' & O' & Fo & Fr & Fb & Fa & Fc).
+    eexists. eexists. split.
+    { cbn [run_hop]. unfold mbind. rewrite Rn. reflexivity. }
+    cbn [map option_map]. rewrite Fr.
+    exists tid, ri, (dt ++ [length ts]), (pre ++ after_removed post), (map (option_map F) mregs).
+    cbn [regs trees a_doc a_dead a_regs]. split; [reflexivity|]. split.
+    { cbn [tstep2]. apply remove_paragraph_at. exact HP. }
+    split.
+    { rewrite forallb_app in *. apply andb_prop in Hnodes as [H1 H2]. cbn [forallb] in H2. apply andb_prop in H2 as [_ H2].
+      rewrite H1. cbn [andb]. now apply forallb_after_removed. }
+    split; [exact T'|]. split; [rewrite !app_length; cbn; lia|]. split.
+    { inversion Hnd as [|? ? Hni Hnd']; subst. constructor.
+      - intros Hin. apply in_app_or in Hin as [Hin|[E|[]]]; [contradiction|lia].
+      - apply NoDup_snoc; [exact Hnd'|]. exact (dead_fresh (mk_state ts (Some (mk_hnd tid []) :: mregs)) a dt Hdead). }
+    split.
+    { intros j t Hj. destruct (Nat.lt_ge_cases j (length dt)) as [Hl|Hl].
+      - rewrite nth_error_app1 in Hj by exact Hl. destruct (Hdead j t Hj) as (rj & D & HD & Hd & Hn).
+        exists rj, D. split; [|split; [now apply nth_error_app_l|exact Hn]].
+        rewrite O'; [exact HD| |now apply nth_error_Some_lt in HD].
+        inversion Hnd; subst. intros ->. apply nth_error_In in Hj. contradiction.
+      - rewrite nth_error_app2 in Hj by exact Hl. destruct (j - length dt) as [|q] eqn:Eq; [|destruct q; discriminate].
+        injection Hj as <-. assert (j = length dt) by lia. subst j. exists (length pre), P.
+        split; [exact N'|]. split; [rewrite Ldt; apply nth_error_app_at|]. destruct P; [discriminate|reflexivity]. }
+    eapply Forall2_map2; [exact HF|]. intros m0 h0 Hr. destruct m0 as [g0|], h0 as [[n0|j0]|]; cbn [reg_rel option_map shift_remove] in *; auto.
+    + destruct Hr as (c & -> & Hl).
+      assert (Hrem : live_at (pre ++ P :: post) (pidx pre) (length pre)) by (exists pre, P, post; auto).
+      destruct (Nat.eqb_spec n0 (pidx pre)) as [->|Hne].
+      * destruct (live_at_order _ _ _ _ _ Hl Hrem) as [(H1 & H2)|[(-> & _)|(H1 & H2)]]; try lia.
+        rewrite Fa. cbn [reg_rel]. exists (length ts). split; [rewrite <- Ldt; apply nth_error_app_at|reflexivity].
+      * destruct (live_at_remove pre P post n0 c HP Hl Hne) as [Hc Hl']. cbv zeta in Hc, Hl'. cbn [reg_rel].
+        eexists. split; [|exact Hl']. destruct (c <? length pre) eqn:Ec.
+        -- apply Nat.ltb_lt in Ec. now apply Fb.
+        -- apply Nat.ltb_ge in Ec. apply Fc. lia.
+    + destruct Hr as (t & Ht & ->). exists t. split; [now apply nth_error_app_l|].
+      destruct (Hdead j0 t Ht) as (rj & D & HD & _). apply Fo; [now apply nth_error_Some_lt in HD|].
+      cbn. inversion Hnd; subst. intros ->. apply nth_error_In in Ht. contradiction.
+  - assert (En : nth_error (paragraphs (Node ROOT rs)) i = None) by (apply nth_error_None; exact Hi).
+    rewrite En. destruct (remove_paragraph_none_spec ts (Some (mk_hnd tid []) :: mregs) tid ri rs i eq_refl HT Hi) as [Rn _].
+    eexists. eexists. split.
+    { cbn [run_hop]. unfold mbind. rewrite Rn. reflexivity. }
+    exists tid, ri, dt, rs, mregs. repeat split; auto.
+Qed.
